@@ -325,6 +325,8 @@ class C11:
         ["*", "ffsp/dpp/mdpp", "multistart/num_samples/beam", "no start-node rule / per-episode tables on the "
          "environment object are not replicated"],
         ["*", "svrp/smtwtp/mdcpdp/dpp/mdpp", "multistart/beam", "no start-node rule in get_num_starts"],
+        ["matnet_multistage", "ffsp", "evaluate replay", "MultiStageFFSPPolicy has no evaluate mode: clause (i) only "
+         "(scenario ffsp_multistage: sum of the executed actions' log-probs under their own stage decoder)"],
         ["matnet/l2d", "*", "ppo", "create_critic_from_actor does not fit their encoders (the PPO class); L2D's own "
          "step-wise PPO (L2DPolicy4PPO / StepwisePPO / L2DPPOModel) is covered by scenario stepwise_ppo"],
         ["l2d4ppo", "jssp", "het_emb=False", "the homogeneous feature extractor GCN4JSSP needs torch_geometric (absent "
@@ -347,6 +349,8 @@ class C11:
         sw_pool = [e for e in STEPWISE_ENVS if e in only]
         if u >= 0.94 and sw_pool:
             return _plan_stepwise(st, rc, sw_pool, tier)
+        if 0.89 <= u < 0.94 and "ffsp" in only:
+            return _plan_ffsp_multistage(st, rc)
         if u < 0.10:
             scenario = "ppo"
             pool = [c for c in PPO_COMBOS if c[1] in only] or PPO_COMBOS
@@ -434,6 +438,13 @@ class C11:
         if plan.get("scenario") == "stepwise_ppo":
             yield from _shrink_stepwise(plan)
             return
+        if plan.get("scenario") == "ffsp_multistage":
+            if len(plan["instances"]) > 1:
+                for i in range(len(plan["instances"])):
+                    p = copy.deepcopy(plan)
+                    del p["instances"][i]
+                    yield p
+            return
         if len(plan["instances"]) > 1:
             for i in range(len(plan["instances"])):
                 p = copy.deepcopy(plan)
@@ -469,6 +480,8 @@ class C11:
             return _execute_ppo(run)
         if plan["scenario"] == "stepwise_ppo":
             return _execute_stepwise(run)
+        if plan["scenario"] == "ffsp_multistage":
+            return _execute_ffsp_multistage(run)
         kind = plan["kind"]
         if kind == "mdam":
             return _execute_mdam(run)
@@ -1262,6 +1275,93 @@ def _execute_stepwise(run):
     if plan["train_mode"]:
         run.probe("stepwise_train_mode_instance_norm")
     run.summary = {"steps": len(recorded), "ratios": ratios, "norm_layers": norms}
+
+
+# --------------------------------------------------------------------------------------------------
+# MultiStageFFSPPolicy (MatNet for the flexible flow shop): one encoder/decoder per stage, loop on policy level
+# --------------------------------------------------------------------------------------------------
+def _plan_ffsp_multistage(st, rc):
+    S, M, J = rc.randint(2, 3), rc.randint(2, 3), rc.randint(2, 4)  # one machine per stage: instance norm over a single element raises
+    cfg = {"env": "ffsp", "n": J, "kw": {},
+           "gen": {"num_stage": S, "num_machine": M, "num_job": J, "min_time": 1, "max_time": rc.choice([3, 6]),
+                   "flatten_stages": False}}
+    env = E.make_env(cfg)
+    B = rc.choice([1, 2, 3])
+    rows = E.gen_rows(env, cfg, B, st.torch_seed("instances"))
+    return {"scenario": "ffsp_multistage", "kind": "matnet_multistage", "cfg": cfg,
+            "instances": [E.enc_row(r) for r in rows], "policy_seed": rc.randrange(1 << 20),
+            "sample_seed": rc.randrange(1 << 30), "decode": rc.choice(["sampling", "sampling", "greedy"])}
+
+
+def _execute_ffsp_multistage(run):
+    """Clause (i) for the per-stage policy: every stage decoder proposes an action at every step, the executed
+    action and its log-probability are those of the decoder of the stage the instance is in at that moment; the
+    returned log-likelihood is the sum, over steps, of the log-probability of the executed action under the masked
+    and normalised distribution it was drawn from."""
+    import rl4co.models.zoo.matnet.decoder as MD
+    from rl4co.models.zoo.matnet.policy import MultiStageFFSPPolicy
+
+    plan = run.plan
+    cfg = plan["cfg"]
+    scope = "matnet_multistage:ffsp"
+    rows = [E.dec_row(r) for r in plan["instances"]]
+    B, S = len(rows), cfg["gen"]["num_stage"]
+    with run.guard(scope, "construct env", promise=False):
+        env = E.make_env(cfg)
+    torch.manual_seed(plan["policy_seed"])
+    with run.guard(scope, "construct MultiStageFFSPPolicy", promise=False):
+        pol = MultiStageFFSPPolicy(stage_cnt=S, embed_dim=32, num_heads=2, num_encoder_layers=1, feedforward_hidden=32,
+                                   train_decode_type=plan["decode"], val_decode_type=plan["decode"],
+                                   test_decode_type=plan["decode"]).eval()
+    with run.guard(scope, "env.reset", promise=False):
+        td = E.reset(env, cfg, rows)
+    stages = []  # stage index of every row at the moment each step is taken
+    orig_step = env.step
+
+    def step(t):
+        stages.append(t["stage_idx"].detach().clone())
+        return orig_step(t)
+
+    env.step = step
+    try:
+        torch.manual_seed(plan["sample_seed"])
+        with ProcessTap(MD) as tap:
+            with run.guard(scope, f"policy forward ({plan['decode']})", B=B, stages=S):
+                with torch.no_grad():
+                    out = pol(td, env, phase="test", num_starts=1, return_actions=True)
+    finally:
+        env.__dict__.pop("step", None)
+    acts = out["actions"]
+    T = int(acts.shape[1])
+    run.tick(T)
+    if len(stages) != T or len(tap.records) != T * S:
+        run.probe("multistage_tap_out_of_step")  # another call pattern than one decoder call per stage and step
+        return
+    ll = out["log_likelihood"].detach().double().reshape(-1)
+    ref = [0.0] * B
+    for t in range(T):
+        for r in range(B):
+            s_ = int(stages[t][r])
+            rec = tap.records[t * S + s_]
+            a = int(acts[r, t])
+            if rec.mask is not None and not bool(rec.mask[r, a]):
+                run.violate(scope, "taken_action", f"step {t} row {r}: executed action {a} is masked in the distribution of "
+                            f"its stage {s_}", constraint="infeasible_action", step=t, row=r, stage=s_)
+                raise StopRun()
+            lp, _sc = ref_logp(rec.logits[r:r + 1].double().numpy(), None if rec.mask is None else rec.mask[r:r + 1].numpy(),
+                               rec.temperature, rec.tanh_clipping)
+            ref[r] += float(lp[0, a])
+    for r in range(B):
+        if abs(float(ll[r]) - ref[r]) > tol(ref[r], 0.0, T):
+            run.violate(scope, "sum_of_logprobs", f"row {r}: returned log-likelihood {float(ll[r])!r}, but the executed actions "
+                        f"have log-probability {ref[r]!r} under the distributions of the stage decoders that produced them",
+                        constraint="loglik_sum", row=r, got=float(ll[r]), ref=ref[r], stages=S, decode=plan["decode"])
+            raise StopRun()
+    if any(len(set(int(stages[t][r]) for t in range(T))) > 1 for r in range(B)):
+        run.probe("multistage_stage_changes")
+        run.nontrivial = True
+    run.log.add("ffsp_ms", acts.tolist(), _hexes(ll))
+    run.probe("multistage_loglik_checked")
 
 
 # --------------------------------------------------------------------------------------------------
